@@ -179,7 +179,8 @@ class C13(verif.Spec):
             if k < 0.30: plans.append(self.plan_single(rng))
             elif k < 0.65: plans.append(self.plan_multi(rng))
             elif k < 0.80: plans.append(self.plan_wss(rng))
-            elif k < 0.90: plans.append(self.plan_timeout(rng))
+            elif k < 0.86: plans.append(self.plan_timeout(rng))
+            elif k < 0.94: plans.append(self.plan_gap(rng))
             else: plans.append(self.plan_random_history(rng))
         for i in range(500 if quick else 6000):
             plans.append(self.plan_malformed(rng))
@@ -406,6 +407,55 @@ class C13(verif.Spec):
         plan.append("state")
         return plan
 
+    def plan_gap(self, rng):
+        """time-stamp gap (arms the 40-frame countdown), then another station identified within the 40 frames,
+        a page cached for it, then 45..70 quiet regular frames: one NETWORK event, no second reset, page kept.
+        Variant without an identified old station: the countdown is expected to fire (design), no window."""
+        t = [rng.randrange(1, 10 ** 6)]
+        def T():
+            t[0] += rng.choice([40000, 33367, 40000]); return t[0]
+        def page():
+            return 0x100 + rng.randrange(8) * 0x100 + rng.randrange(10) * 16 + rng.randrange(10)
+        c = rng.choice(["vps", "8301", "8302"])
+        identified = rng.random() < 0.75
+        while True:
+            A = self.pick_station(rng, [c])[c]
+            B = self.pick_station(rng, [c])[c]
+            ia, ib = self.tbl.lookup(c, A)[0], self.tbl.lookup(c, B)[0]
+            if ia and ib and ia != ib and A != B: break
+        pa, pb = page(), 0
+        while True:
+            pb = page()
+            if pb != pa: break
+        plan = ["mask %d" % nu.MASK_ALL]
+        if identified:
+            plan.append("note station A carrier=%s" % c)
+            for _ in range(rng.randrange(2, 5)): plan.append(("frame", T(), [self.line_for(rng, c, A)]))
+            plan += ["note established", ("frame", T(), ["p:%d" % pa]), "cached %d" % pa]
+        else:
+            for _ in range(rng.randrange(1, 4)): plan.append(("frame", T(), []))
+        if identified:
+            plan.append("note change-begin to=%d tag=gap" % ib)
+        else:
+            plan.append("note gap-unidentified")
+        t[0] += rng.choice([60000, 100000, 200000, 1000000, 5000000, 51000])
+        plan.append(("frame", t[0], rng.choice([[], [self.line_for(rng, c, B)]])))
+        for _ in range(rng.randrange(0, 8)): plan.append(("frame", T(), []))
+        for _ in range(rng.randrange(2, 4)): plan.append(("frame", T(), [self.line_for(rng, c, B)]))
+        plan += [("frame", T(), ["p:%d" % pb]), "cached %d" % pb, "state"]
+        w = nu.wss_word(rng.randrange(8)) if rng.random() < 0.3 else None
+        for _ in range(rng.randrange(45, 70)):
+            k = rng.random()
+            toks = [self.line_for(rng, c, B)] if k < 0.5 else []
+            if w and rng.random() < 0.5: toks.append("w:" + hx(w))
+            plan.append(("frame", T(), toks))
+        if identified:
+            plan += ["note change-end", "note expect-cached", "cached %d" % pb, "note expect-uncached", "cached %d" % pa]
+        else:
+            plan += ["cached %d" % pb]
+        plan.append("state")
+        return plan
+
     def plan_random_history(self, rng):
         """valid lines of a few stations in random order with regular timing: O1-O3 apply, no windows"""
         t = [rng.randrange(1, 10 ** 6)]
@@ -497,7 +547,7 @@ class C13(verif.Spec):
             ft = frame_tokens(l)
             if ft is not None:
                 t = ft[0]
-                if last is not None and not (25000 < t - last < 50000) and not any("tag=reset" in x for x in case):
+                if last is not None and not (25000 < t - last < 50000) and not any(("tag=reset" in x or "tag=gap" in x or "gap-unidentified" in x) for x in case):
                     return False
                 last = t
             elif w[0] not in ("mask", "note", "cached", "state", "chsw"):
@@ -529,6 +579,9 @@ class C13(verif.Spec):
         expect_uncached = False
         pending_reset = False  # vbi_channel_switched called: the next frame resets
         seen_vps_pid = set()   # programme ids VPS lines carried so far
+        expect_cached = False
+        gap_seen = False       # a time-stamp gap armed the countdown: a time-out reset may follow
+        last_t = None
         for op, o in zip(case, out):
             w = op.split()
             if w[0] == "note":
@@ -551,13 +604,17 @@ class C13(verif.Spec):
                     win = None
                 elif w[1] == "expect-uncached":
                     expect_uncached = True
+                elif w[1] == "expect-cached":
+                    expect_cached = True
                 continue
             if w[0] == "cached":
                 if win and win["kind"] == "quiet-begin" and o != "ok 1":
                     return self.quiet_what(win, "cached page lost")
                 if expect_uncached and o != "ok 0":
                     return "change-flush: page of the old station still cached after the station change"
-                expect_uncached = False
+                if expect_cached and o != "ok 1":
+                    return "change-newcache: page cached for the new station was dropped although the station did not change again"
+                expect_uncached = expect_cached = False
                 continue
             if w[0] == "chsw":
                 pending_reset = True
@@ -569,22 +626,34 @@ class C13(verif.Spec):
             if evs is None:
                 continue
             t, toks = ft
+            if last_t is not None and not (25000 < t - last_t < 50000):
+                gap_seen = True
+            last_t = t
             rxs = [Rx(tk, mask) for tk in toks]
+            # a time-out reset at the head of the frame: NETWORK with an empty record as the very first event
+            head_nets = []
+            if evs and evs[0][0] == "net" and all(x in ("0", "-") for x in evs[0][1]) and (gap_seen or pending_reset or not toks) \
+                    and len([1 for (tg, f) in evs if tg == "net" and all(x in ("0", "-") for x in f[:6])]) < 2:
+                head_nets = [evs[0][1]]
+                evs = evs[1:]
             nets = [f for (tg, f) in evs if tg == "net"]
             nids = [f for (tg, f) in evs if tg == "nid"]
             asps = [f for (tg, f) in evs if tg == "asp"]
             # --- resets at the head of the frame (countdown / vbi_channel_switched) ----------------
             head_reset = False
-            if pending_reset or (not toks and nets):
+            if pending_reset or head_nets:
                 head_reset = True
-            if not toks:
-                for f in nets:
-                    if any(x not in ("0", "-") for x in f):
-                        return "faithful: reset NETWORK event carries %s" % ":".join(f)
-                if nets and nuid == 0:
-                    return "stable: NETWORK event from a reset although no station was identified"
+            if not toks and nets:
+                return "faithful: NETWORK event %s from a frame without lines" % ":".join(nets[0])
+            if head_nets and nuid == 0 and has_net:
+                return "stable: NETWORK event from a reset although no station was identified"
+            if head_nets and win is not None:
+                win["nets"] += head_nets
+                if win["kind"] == "quiet-begin":
+                    return self.quiet_what(win, "NETWORK event (time-out reset)")
             if head_reset:
                 prev, hist_wss, dirty, last_aspect, nuid, pending_reset = {}, [], False, None, 0, False
+                gap_seen = False
             # --- receptions of this frame ------------------------------------------------------------
             cands = []         # (rx, repeated?)
             frame_dirty = dirty
@@ -656,8 +725,6 @@ class C13(verif.Spec):
                 if int(nets[-1][0]) == nuid and nuid != 0:
                     return "stable-net-same-station%s: NETWORK event although the identified station (%d) did not change" % (
                         "-xds" if any(r.kind == "xdsname" for r in rxs) else "", nuid)
-            elif not toks and nets and win is not None:
-                win["nets"] += nets
             announced = [f for f in (nets if has_net else nids) if toks]
             if announced:
                 new = int(announced[-1][0])
@@ -743,23 +810,6 @@ class C13(verif.Spec):
     def signature(self, case, what):
         return what.split(":")[0]
 
-
-def _load_known():
-    """lib/verif.py reads known_findings.json only; the per-component file known_findings.C13.json is merged here
-    (see NOTES/C13.md) until the composer folds it into the shared file"""
-    import json
-    base = _load_known.orig()
-    p = os.path.join(verif.VERIF, "known_findings.C13.json")
-    if os.path.exists(p):
-        have = {(k.get("property"), k.get("signature")) for k in base.get("findings", [])}
-        for k in json.load(open(p)).get("findings", []):
-            if (k.get("property"), k.get("signature")) not in have:
-                base.setdefault("findings", []).append(k)
-    return base
-
-
-_load_known.orig = verif.load_known
-verif.load_known = _load_known
 
 if __name__ == "__main__":
     verif.run_check(C13())
